@@ -82,6 +82,16 @@ func NewCtx(property, tier, repo, verif string) *Ctx {
 	return &Ctx{Property: property, Tier: tier, RepoDir: repo, VerifDir: verif, Stats: map[string]int{}, cache: map[string]any{}}
 }
 
+// ShareFrom makes c reuse the program, catalog and derived structures already built by o (same
+// repository, same overlay); used by the multi-property development mode only.
+func (c *Ctx) ShareFrom(o *Ctx) {
+	o.Prog()
+	c.progOnce.Do(func() { c.prog, c.progErr = o.prog, o.progErr })
+	o.Catalog()
+	c.sqlOnce.Do(func() { c.cat, c.catErr = o.cat, o.catErr })
+	c.cache = o.cache
+}
+
 // Cache memoises expensive derived structures per context.
 func (c *Ctx) Cache(key string, build func() any) any {
 	if v, ok := c.cache[key]; ok {
